@@ -78,8 +78,6 @@ Proof.
   apply andb_true_iff in H. destruct H as [H1 H2]. apply rname_eqb_sound in H1. apply leafl_eqb_sound in H2. subst. reflexivity.
 Qed.
 
-Definition k_mul : fkey := ("functions", "multiply", ["X"; "X"]).
-
 Section Real.
   Context {R : Type}.
   Variables (rO rI : R) (radd rmul rsub : R -> R -> R) (ropp : R -> R).
@@ -317,7 +315,7 @@ Section Real.
     rewrite ?cd_add, ?cd_mul, ?cd_addsc, ?cd_mulsc; cbv beta iota.
 
   Ltac swap_proof :=
-    intros a b; unfold eager_call; rewrite !select_filter; cbn [shapes map List.length snd k_add k_mul];
+    intros a b; unfold eager_call; rewrite !select_filter; cbn [shapes map List.length snd fk_add fk_mul];
     match goal with |- context [filter ?f api_table] =>
       let v := eval vm_compute in (filter f api_table) in
       replace (filter f api_table) with v by (vm_cast_no_check (eq_refl v)) end;
@@ -357,14 +355,14 @@ Section Real.
               | symmetry; eapply (ew_data_comm radd); eassumption | symmetry; eapply (ew_data_comm rmul); eassumption]
     end.
 
-  Lemma swap_add : forall a b, ecall k_add [b; a] = ecall k_add [a; b].
+  Lemma swap_add : forall a b, ecall fk_add [b; a] = ecall fk_add [a; b].
   Proof.
     swap_proof; try fin_trivial.
     - fin_sc.
     - fin_ew.
   Qed.
 
-  Lemma swap_mul : forall a b, ecall k_mul [b; a] = ecall k_mul [a; b].
+  Lemma swap_mul : forall a b, ecall fk_mul [b; a] = ecall fk_mul [a; b].
   Proof.
     swap_proof; try fin_trivial.
     - fin_sc.
